@@ -165,6 +165,43 @@ def c03_environment(ctx, res, entries):
     res.require(["l2:run_under_another_environment_or_path"], "L2")
 
 
+def c03_reg_table(ctx, res):
+    """TRAP x27 (REG) in the decorated output mode prints a table; its numbers are the machine's: every
+    register in hex, PC and the condition codes - also before anything has set them."""
+    d = _dir(ctx, "c03_reg")
+    progs = [("reg\nadd r1 r1 #-3\nreg\nand r2 r2 #0\nreg\nadd r3 r3 #5\nreg\nhalt\n",
+              [("3001", "000", {}), ("3003", "100", {1: "fffd"}), ("3005", "010", {1: "fffd"}), ("3007", "001", {1: "fffd", 3: "0005"})]),
+             (".orig x4000\nbrnzp skip\nskip st r0 cell\nreg\nld r4 cell\nreg\nnot r5 r4\nreg\nhalt\ncell .fill x0\n",
+              [("4003", "000", {}), ("4005", "010", {}), ("4007", "100", {5: "ffff"})]),
+             ("lea r6 here\nhere reg\njsr f\nreg\nhalt\nf ret\n", [("3002", "001", {6: "3001"}), ("3004", "001", {6: "3001", 7: "3003"})])]
+    for k, (src, want) in enumerate(progs):
+        _write(os.path.join(d, "g%d.asm" % k), src)
+        for env in ({}, {"NO_COLOR": None}, {"NO_COLOR": None, "CLICOLOR_FORCE": "1"}):
+            r = lace(ctx, ["run", "g%d.asm" % k], cwd=d, env=env, timeout=30)
+            res.evaluations += 1
+            res.cls("l2:reg_table_in_decorated_mode")
+            text = _SGR.sub(b"", r.out).decode("utf-8", "replace")
+            pcs = re.findall(r"PC\s+0x([0-9a-f]{4})", text)
+            ccs = re.findall(r"CC\s+([01]{3})", text)
+            regs = re.findall(r"R([0-7])\s+0x([0-9a-f]{4})", text)
+            got = []
+            for t in range(len(pcs)):
+                rr = {int(a): b for a, b in regs[8 * t:8 * t + 8]}
+                got.append((pcs[t], ccs[t] if t < len(ccs) else None, rr))
+            exp = []
+            for pc, cc, changed in want:
+                rr = {i: "0000" for i in range(7)}
+                rr[7] = "fdff"
+                rr.update(changed)
+                exp.append((pc, cc, rr))
+            if r.rc != 0 or got != exp:
+                first = next((t for t in range(min(len(got), len(exp))) if got[t] != exp[t]), min(len(got), len(exp)))
+                res.violate("C03/cli/reg-table", "REG table #%d of a run in decorated mode shows %s; the machine holds %s (exit %s)"
+                            % (first + 1, got[first] if first < len(got) else None, exp[first] if first < len(exp) else None, r.rc),
+                            dict(r.brief(), source=src, environment=env))
+    res.require(["l2:reg_table_in_decorated_mode"], "L2")
+
+
 def c03_escape_output(ctx, res):
     """Programs whose own output contains ESC (x1B). How the minimal mode renders the ESC byte itself is
     an open point (the mode strips colour sequences from what it prints, one write at a time, and the
@@ -1143,7 +1180,8 @@ def c08_surroundings(ctx, res, d):
     img = bytes.fromhex("30001021f025") + b"\x41\x42" * 3000
     full = common.full_device(ctx)
     other_fs = "/dev/shm" if os.path.isdir("/dev/shm") and os.stat("/dev/shm").st_dev != os.stat(d).st_dev else None
-    kinds = ["stdout_full", "stdout_reader_gone", "streams_closed", "dest_mtime_in_the_future", "tmpdir_missing", "tmpdir_other_fs", "stdout_is_the_destination_dir"]
+    kinds = ["stdout_full", "stdout_reader_gone", "streams_closed", "dest_mtime_in_the_future", "tmpdir_missing", "tmpdir_other_fs", "stdout_is_the_destination_dir",
+             "source_in_another_directory", "256_failing_statements", "512_failing_statements", "255_failing_statements"]
     for kind in kinds:
         for pre in (True, False):
             base = os.path.join(d, "sur_%s_%d" % (kind, pre))
@@ -1184,9 +1222,20 @@ def c08_surroundings(ctx, res, d):
             elif kind == "stdout_is_the_destination_dir":
                 stdout = open(os.path.join(base, "log.txt"), "wb")
                 opened.append(stdout)
+            argv = [exe, "compile", "p.asm", "p.lc3"]
+            expect_ok = True
+            if kind == "source_in_another_directory":
+                # the source lies elsewhere, the destination is a plain relative name: it is created where lace runs
+                os.makedirs(os.path.join(base, "src"), exist_ok=True)
+                os.replace(os.path.join(base, "p.asm"), os.path.join(base, "src", "p.asm"))
+                argv = [exe, "compile", "src/p.asm", "p.lc3"]
+            elif kind.endswith("_failing_statements"):
+                n_bad = int(kind.split("_")[0])
+                _write(os.path.join(base, "p.asm"), "ld r0 far\n" * n_bad + ".blkw #400\nfar halt\n")
+                expect_ok = False
             before = snapshot(dest)
             try:
-                p = subprocess.run([exe, "compile", "p.asm", "p.lc3"], cwd=base, env=e, stdin=subprocess.DEVNULL, stdout=stdout, stderr=stderr,
+                p = subprocess.run(argv, cwd=base, env=e, stdin=subprocess.DEVNULL, stdout=stdout, stderr=stderr,
                                    preexec_fn=pre_fn, timeout=60)
                 rc, err = p.returncode, (p.stderr or b"")
             except subprocess.TimeoutExpired:
@@ -1200,6 +1249,8 @@ def c08_surroundings(ctx, res, d):
                       "before": _snap_brief(before), "after": _snap_brief(after)}
             if rc is None or rc < 0:
                 res.violate("C08/crash/" + kind, "`lace compile` hung or was killed by a signal (%s)" % rc, detail)
+            elif rc == 0 and not expect_ok:
+                res.violate("C08/exit-0-for-a-rejected-source/" + kind, "exit 0 for a source no statement of which can be emitted (destination %s)" % ("unchanged" if after == before else "changed"), detail)
             elif rc == 0 and not (after is not None and after[0] == "file" and after[1] == img):
                 res.violate("C08/exit-0-incomplete-file/" + kind, "exit 0 but the destination does not hold the complete object file", detail)
             elif rc != 0 and after != before:
@@ -1372,6 +1423,8 @@ def c14_transport(ctx, res):
              ["print \U0001F34B", "\U0001F34B", "\u00e9 r0", "move r1 \U0001D11E", "echo ok", "print r1", "quit"],
              ["echo " + "long line " * 9, "echo " + "\U0001F34B" * 40, "print" + " " * 130 + "r2", "echo " + "y" * 1100, "exit"],
              ["", " ", ";", "echo ;", "echo x", "exit"],
+             # the last command is a single character with nothing behind it
+             ["move r0 5", "step", "r"], ["echo a", "move r1 7", "print r1", "c"], ["step", "echo z", "x"],
              # two-byte characters from every sixteenth of their range (lead bytes xC2..xDF: Latin, Greek, Cyrillic, Hebrew, Arabic, N'Ko)
              ["echo \u00a9\u00ff", "echo \u03a9\u03c9", "echo \u043f\u0440\u0438\u0432\u0435\u0442", "echo \u0400\u04ff", "echo \u05e9\u05dc\u05d5\u05dd", "echo \u0645\u0631\u062d\u0628\u0627",
               "echo \u07c0\u07ff", "\u0434 r0", "print \u0431", "registers", "exit"]]
